@@ -27,7 +27,7 @@
    Config.GlobalFormat, the flood limiter (delays only), user handlers, the STS reconnect.
    The default CTCP repliers run in goroutines of their own (SetBg): their output is part of
    the reaction to the line but is written asynchronously; no line produces output from two
-   different stages (React proofs: react_single_source), so the order within one reaction is
+   different stages (Proofs/ReactWire.v react_single_source), so the order within one reaction is
    always fixed by one piece of sequential code.  No proofs in this file. *)
 Require Import Bytes.
 Require AMap CapLib Names WireOut Tags Event State ClientStep Ctcp Sasl Cap StsState Split PingNick SendPath.
